@@ -13,7 +13,8 @@
    The lift of (R) from the picker relation over all reachable states is C12_…_partial
    work in progress (DESIGN.md §6 C12). *)
 From Verif Require Import Bytes Keys Consts Spec Lsm Compact.
-From Verif Require LsmProofs CompactProofs GetProofs MergeProofs C12Proofs.
+From Verif Require Import Sys.
+From Verif Require LsmProofs CompactProofs GetProofs MergeProofs C12Proofs InstallProofs.
 Open Scope N_scope.
 Import CompactProofs GetProofs.
 
@@ -85,3 +86,42 @@ Example C12_hypotheses_satisfiable :
   let d := mkLsm [] [] [[t2; t1]; []] in
   sorted (merge_all [t_ents t1; t_ents t2]) /\ db_get d [7] 9 = Some (mkE [7] 5 1 0 0 []).
 Proof. split; [repeat constructor|reflexivity]. Qed.
+
+(* Theorem C: installing a compaction as the code does (replaceTables on the output level in
+   the observed order, deleteTables on the input level) leaves every Get at ts >= discard
+   unchanged: the bookkeeping (fresh table ids, output layout, observed order — exactly what
+   Sys.step_strict checks on every label of every correspondence run) is discharged here; what
+   remains as hypotheses is the tree shape (lsm_wf before and after = C14), distinct key@version
+   and (R) *)
+Import InstallProofs.
+Theorem C12_installed_compaction_preserves_reads_partial : forall d c k ts now',
+  let ls := l_levels d in
+  lsm_wf d -> lsm_wf (tree_after d c) ->
+  NoDup (all_ids ls) -> pick_wf ls c -> fresh_layout ls c ->
+  layout_sum (c_layout c) = length (compaction_output ls c) ->
+  order_ok (c_order c)
+    (let nl := drop_tables (c_bot c) (nth (c_next c) ls []) ++ new_tables ls c in
+     if (c_this c =? c_next c)%nat then drop_tables (c_top c) nl else nl) = true ->
+  c_drop c = [] ->
+  nodup_kv (all_entries d) ->
+  Forall sorted (compaction_inputs ls c) ->
+  (forall e, In e (concat (compaction_inputs ls c)) -> dead_marker (cparams_of ls c) e ->
+     compaction_overlap ls c = false ->
+     forall o, In o (outside d c) -> e_key o = e_key e -> e_ver e < e_ver o) ->
+  c_discard c <= ts -> c_now c <= now' ->
+  vis_of now' (db_get (tree_after d c) k ts) = vis_of now' (db_get d k ts).
+Proof. exact InstallProofs.installed_compaction_preserves_get. Qed.
+Print Assumptions C12_installed_compaction_preserves_reads_partial.
+
+(* the tree after the installation holds exactly: the tables that were not picked + the new ones *)
+Theorem C12_install_tables : forall ls c t,
+  NoDup (all_ids ls) -> (c_this c < length ls)%nat -> (c_next c < length ls)%nat ->
+  fresh_layout ls c ->
+  (forall i, In i (c_top c) -> In i (map t_id (nth (c_this c) ls []))) ->
+  order_ok (c_order c)
+    (let nl := drop_tables (c_bot c) (nth (c_next c) ls []) ++ new_tables ls c in
+     if (c_this c =? c_next c)%nat then drop_tables (c_top c) nl else nl) = true ->
+  in_levels (apply_compaction ls c) t <->
+  (in_levels ls t /\ ~ picked ls c t) \/ In t (new_tables ls c).
+Proof. exact InstallProofs.apply_compaction_tables. Qed.
+Print Assumptions C12_install_tables.
